@@ -54,7 +54,7 @@ def pool_acquisitions(ana):
     return out, facts
 
 
-@rule("C20", "R1", "PAIR", "worker pool released on every exit, exceptional ones included")
+@rule("C20", "R1", "PAIR", "worker pool released on every exit, exceptional ones included", evidence=True)
 def r1(ctx):
     ana = ctx.ana
     acqs, facts = pool_acquisitions(ana)
@@ -141,7 +141,7 @@ def _handlers(ana):
                     yield fi, n, h
 
 
-@rule("C20", "R2", "CENSUS", "no handler swallows an error; task results are consumed by an untimed get()")
+@rule("C20", "R2", "CENSUS", "no handler swallows an error; task results are consumed by an untimed get()", evidence=True)
 def r2(ctx):
     ana = ctx.ana
     count = 0
@@ -200,7 +200,7 @@ def _fed_by_tasks(ana, fi, call) -> bool:
     return any(n in (".apply_async", ".submit") for n in dep.call_names)
 
 
-@rule("C20", "R3", "ORDER", "front-end TypeError translators are narrow and name the other entry point")
+@rule("C20", "R3", "ORDER", "front-end TypeError translators are narrow and name the other entry point", evidence=True)
 def r3(ctx):
     ana = ctx.ana
     fe = ana.prog.modules.get("fast_ticc.front_end")
@@ -275,7 +275,7 @@ def r3(ctx):
                       expected="fit_stacked_data called outside try/except", found="call inside a try with handlers")
 
 
-@rule("C20", "R4", "ORDER", "donor shortage raises RuntimeError naming the shortage")
+@rule("C20", "R4", "ORDER", "donor shortage raises RuntimeError naming the shortage", evidence=True)
 def r4(ctx):
     ana = ctx.ana
     fi = ana.func("cluster_maintenance._find_point_donor")
@@ -318,7 +318,7 @@ def r6(ctx):
     ctx.sub(c08.r6)
 
 
-@rule("C20", "R5", "PURE", "a failed call leaves no module-level state behind")
+@rule("C20", "R5", "PURE", "a failed call leaves no module-level state behind", evidence=True)
 def r5(ctx):
     from .c14 import module_state_writes
     writes = module_state_writes(ctx.ana)
